@@ -1160,6 +1160,89 @@ Example registry_demo :
 Proof. repeat eexists. Qed.
 
 (* ============================================================================================================ *)
+(* 11. Registry with contexts: a rejected duplicate changes nothing, not even the registered context               *)
+(* ============================================================================================================ *)
+
+Lemma ctx_of_drop_same : forall k t tab, ctx_of k t (drop_ctx k t tab) = CtxNone.
+Proof.
+  intros k t tab. induction tab as [|[[k' t'] c] tab IH]; [reflexivity|].
+  unfold drop_ctx in *. cbn [filter fst snd].
+  destruct ((k' =? k) && (t' =? t)) eqn:E; cbn [negb]; [exact IH|].
+  cbn [ctx_of]. rewrite E. exact IH.
+Qed.
+
+Lemma ctx_of_drop_other : forall k t k' t' tab, k' <> k \/ t' <> t ->
+  ctx_of k' t' (drop_ctx k t tab) = ctx_of k' t' tab.
+Proof.
+  intros k t k' t' tab Hne. induction tab as [|[[k0 t0] c] tab IH]; [reflexivity|].
+  unfold drop_ctx in *. cbn [filter fst snd].
+  destruct ((k0 =? k) && (t0 =? t)) eqn:E; cbn [negb].
+  - cbn [ctx_of]. apply andb_true_iff in E. destruct E as [E1 E2].
+    apply Nat.eqb_eq in E1. apply Nat.eqb_eq in E2. subst k0 t0.
+    assert ((k =? k') && (t =? t') = false) as ->.
+    { apply andb_false_iff. destruct Hne as [H|H]; [left|right]; apply Nat.eqb_neq; congruence. }
+    exact IH.
+  - cbn [ctx_of]. rewrite IH. reflexivity.
+Qed.
+
+Theorem subscribe_ctx_duplicate_panics : forall c k t cr, In t (lookup k (fst cr)) -> subscribe_ctx c k t cr = None.
+Proof. intros c k t cr H. unfold subscribe_ctx. now rewrite (subscribe_duplicate_panics k t (fst cr) H). Qed.
+
+Theorem subscribe_ctx_ok : forall c k t cr, ~ In t (lookup k (fst cr)) ->
+  exists cr', subscribe_ctx c k t cr = Some cr' /\
+    lookup k (fst cr') = lookup k (fst cr) ++ [t] /\
+    (forall k', k' <> k -> lookup k' (fst cr') = lookup k' (fst cr)) /\
+    ctx_of k t (snd cr') = c /\
+    (forall k' t', k' <> k \/ t' <> t -> ctx_of k' t' (snd cr') = ctx_of k' t' (snd cr)).
+Proof.
+  intros c k t cr H. destruct (subscribe_ok k t (fst cr) H) as [r' [Hs [Hl Ho]]].
+  unfold subscribe_ctx. rewrite Hs. eexists. split; [reflexivity|]. cbn [fst snd]. repeat split.
+  - exact Hl.
+  - exact Ho.
+  - cbn [ctx_of]. now rewrite !Nat.eqb_refl.
+  - intros k' t' Hne. cbn [ctx_of].
+    assert ((k =? k') && (t =? t') = false) as ->.
+    { apply andb_false_iff. destruct Hne as [Hn|Hn]; [left|right]; apply Nat.eqb_neq; congruence. }
+    now apply ctx_of_drop_other.
+Qed.
+
+(* the state after a SubscribeContext call that may panic *)
+Definition after_subscribe (c : sctx) (k t : nat) (cr : cregistry) : cregistry :=
+  match subscribe_ctx c k t cr with Some cr' => cr' | None => cr end.
+
+(* A duplicate Subscribe panics without changing the registry: what a later Publish finds under ANY key - targets
+   and the context each was registered with - is what it would have found before, whatever context the rejected call
+   carried. *)
+Theorem rejected_duplicate_changes_nothing : forall c k t cr k',
+  In t (lookup k (fst cr)) -> subs_of k' (after_subscribe c k t cr) = subs_of k' cr.
+Proof. intros c k t cr k' H. unfold after_subscribe. now rewrite subscribe_ctx_duplicate_panics. Qed.
+
+Lemma map_sid_subs_of : forall k cr, map sid (subs_of k cr) = lookup k (fst cr).
+Proof.
+  intros k cr. unfold subs_of. rewrite map_map. rewrite <- (map_id (lookup k (fst cr))) at 2.
+  apply map_ext. intros t. now destruct (ctx_of k t (snd cr)).
+Qed.
+
+(* a subscription registered with an already cancelled context receives nothing from a later publish *)
+Theorem publish_ready_skips_cancelled : forall k cr t, reg_ok (fst cr) ->
+  In t (lookup k (fst cr)) -> ctx_of k t (snd cr) = CtxCancelled -> ~ In t (fst (publish_ready k cr)).
+Proof.
+  intros k cr t Hok Hin Hc. unfold publish_ready.
+  set (s := {| sid := t; has_ctx := true; cancelled0 := true; compat := true |}).
+  change t with (sid s). apply nobody_else_receives.
+  - rewrite map_sid_subs_of. apply Hok.
+  - unfold subs_of. apply in_map_iff. exists t. split; [now rewrite Hc | exact Hin].
+  - right. split; reflexivity.
+Qed.
+
+Example cregistry_demo :
+  exists a b,
+    subscribe_ctx CtxNone 1 10 ([], []) = Some a /\ subscribe_ctx CtxCancelled 1 11 a = Some b /\
+    subscribe_ctx CtxCancelled 1 10 b = None /\ after_subscribe CtxCancelled 1 10 b = b /\
+    fst (publish_ready 1 b) = [10] /\ snd (publish_ready 1 b) = true.
+Proof. repeat eexists. Qed.
+
+(* ============================================================================================================ *)
 
 Print Assumptions rebase_ok.
 Print Assumptions build_WF.
@@ -1182,3 +1265,5 @@ Print Assumptions unsubscribe_ok.
 Print Assumptions unsubscribe_cleanup.
 Print Assumptions unsubscribe_barrier.
 Print Assumptions other_keys_receive_nothing.
+Print Assumptions rejected_duplicate_changes_nothing.
+Print Assumptions publish_ready_skips_cancelled.
